@@ -68,11 +68,12 @@ Section B.
   Qed.
 
   (* ---- CMid: an accepted candidate schedule explains the observation ---- *)
-  Lemma mid_bridge pre mids out after :
-    corr_ok (CMid cap batch pre mids out after) = true ->
-    pred_ok (CMid cap batch pre mids out after) = true.
+  Lemma mid_bridge pre mids term out nilret after :
+    corr_ok (CMid cap batch pre mids term out nilret after) = true ->
+    pred_ok (CMid cap batch pre mids term out nilret after) = true.
   Proof.
-    cbn [corr_ok pred_ok]. rewrite !existsb_exists. intros [tr [Hin Hacc]]. exists tr. split; [exact Hin|].
+    cbn [corr_ok pred_ok]. intro H0. apply andb_true_iff in H0 as [_ H0]. revert H0.
+    rewrite !existsb_exists. intros [tr [Hin Hacc]]. exists tr. split; [exact Hin|].
     unfold accepts in Hacc. destruct (run cap batch keep init tr) as [s|] eqn:Hr; [|discriminate].
     apply ostate_eqb_eq in Hacc as [H1 [H2 H3]].
     pose proof (trace_pred tr s Hr H3) as Hp. rewrite H1, H2 in Hp. destruct after. exact Hp.
@@ -155,9 +156,9 @@ Section B.
   Qed.
 
   Lemma kept_app t1 t2 : kept keep (t1 ++ t2) = kept keep t1 ++ kept keep t2.
-  Proof. induction t1 as [|[a| |o] t1 IH]; simpl; rewrite ?IH, ?app_assoc; reflexivity. Qed.
+  Proof. induction t1 as [|[a| |o|] t1 IH]; simpl; rewrite ?IH, ?app_assoc; reflexivity. Qed.
   Lemma popped_app t1 t2 : popped (t1 ++ t2) = popped t1 ++ popped t2.
-  Proof. induction t1 as [|[a| |o] t1 IH]; simpl; rewrite ?IH, ?app_assoc; reflexivity. Qed.
+  Proof. induction t1 as [|[a| |o|] t1 IH]; simpl; rewrite ?IH, ?app_assoc; reflexivity. Qed.
 
   Lemma kept_trace_of ops : kept keep (trace_of ops) = ops_kept ops.
   Proof.
